@@ -572,6 +572,8 @@ func runOne(t *testing.T, run *vh.Run, r *vh.Rand, c *Case, exhaustiveLimit int)
 		crashChainCase(t, run, r, c, false)
 	case "hist":
 		historyCase(t, run, c)
+	case "histlive":
+		liveHistoryCase(t, run, c)
 	}
 }
 
@@ -641,6 +643,14 @@ func TestCheck(t *testing.T) {
 					c := genHistory(r.Fork(), st, last, rep%2 == 0)
 					historyCase(t, run, &c)
 				}
+			}
+		}
+		// the same with ONE Maintenance goroutine alive over the whole history and last changes that neither add nor
+		// remove a silence (Expire / in-place edits after a periodic snapshot), history_live.go
+		for rep := 0; rep < env.N(6, 6); rep++ {
+			for _, last := range liveHistoryKinds() {
+				c := genLiveHistory(r.Fork(), last)
+				liveHistoryCase(t, run, &c)
 			}
 		}
 		// codec differential and prefix/corruption classes
